@@ -320,31 +320,35 @@ def add_worm_gear_mating(
             f"pressure angles, so they cannot mate together."
         )
 
-    master.drives = slave
-    master.mating_role = MatingMaster
-    slave.driven_by = master
-    slave.mating_role = MatingSlave
     if isinstance(master, WormGear) and isinstance(slave, WormWheel):
-        slave.master_gear_ratio = slave.n_teeth/master.n_starts
+        worm_gear = master
+        gear_ratio = slave.n_teeth/master.n_starts
         efficiency = \
             (master.pressure_angle.cos() -
                 friction_coefficient*master.helix_angle.tan()) / \
             (master.pressure_angle.cos() +
                 friction_coefficient/master.helix_angle.tan())
-        master.self_locking = \
+        self_locking = \
             friction_coefficient > master.pressure_angle.cos() * \
             master.helix_angle.tan()
     else:
-        slave.master_gear_ratio = slave.n_starts/master.n_teeth
+        worm_gear = slave
+        gear_ratio = slave.n_starts/master.n_teeth
         efficiency = \
             (master.pressure_angle.cos() -
                 friction_coefficient/master.helix_angle.tan()) / \
             (master.pressure_angle.cos() +
                 friction_coefficient*master.helix_angle.tan())
-        slave.self_locking = \
+        self_locking = \
             friction_coefficient > slave.pressure_angle.cos() * \
             slave.helix_angle.tan()
     slave.master_gear_efficiency = efficiency
+    master.drives = slave
+    master.mating_role = MatingMaster
+    slave.driven_by = master
+    slave.mating_role = MatingSlave
+    slave.master_gear_ratio = gear_ratio
+    worm_gear.self_locking = self_locking
 
 
 def add_fixed_joint(
